@@ -286,6 +286,12 @@ def run_shard(ctx):
                             ctx.violation("extremum-is-not-extreme", {"function": fname, "returned": me, "better": o, "all": evrs[nm], "component": "RpmList mixin with its own package lists"},
                                           spec={"list": evrs[nm]})
                             break
+            for nm in names:
+                if len(evrs[nm]) >= 2:
+                    cut = rng.randint(1, len(evrs[nm]) - 1)
+                    order = list(evrs[nm])
+                    rng.shuffle(order)
+                    grown_list_check(ctx, order[:cut], order[cut:], rng.choice(["append", "append", "replace-list", "new-dict"]))
     # (ii) laws, exhaustively per alphabet
     maxlen = 3 if ctx.tier == "quick" else 4
     nalph = 6 if ctx.tier == "quick" else 3
@@ -338,6 +344,41 @@ def run_shard(ctx):
     ctx.hashes = set("%016x" % h if isinstance(h, int) else h for h in ctx.hashes)
 
 
+def grown_list_check(ctx, first, added, how):
+    """A component that mixes RpmList in and fills `packages` step by step: look-ups, then more packages of the same name
+    arrive (appended in place / the per-name list replaced), then look-ups again - each answer must be extreme for what the
+    component holds at that moment."""
+    from insights.parsers.installed_rpms import RpmList
+
+    class OwnList(RpmList):
+        def __init__(self, pk):
+            self.packages = pk
+    first, added = [tuple(x) for x in first], [tuple(x) for x in added]
+    own = OwnList({"pk": [mkrpm("pk", e) for e in first]})
+    held = list(first)
+    for phase in (0, 1):
+        for fname in ("get_max", "newest", "get_min", "oldest"):
+            m = getattr(own, fname)("pk")
+            me = (int(m.epoch), m.version, m.release)
+            ctx.count("extrema_checked")
+            for o in held:
+                c = ref_evr(o, me)
+                if (fname in ("get_max", "newest") and c > 0) or (fname in ("get_min", "oldest") and c < 0):
+                    ctx.violation("extremum-is-not-extreme", {"function": fname, "returned": me, "better": o, "all": held, "after": "packages of this name were added to the component (%s) after an earlier look-up" % how if phase else "first look-up"},
+                                  spec={"list": first, "then": added, "how": how})
+                    return
+        if phase == 0:
+            new = [mkrpm("pk", e) for e in added]
+            if how == "append":
+                own.packages["pk"].extend(new)
+            elif how == "replace-list":
+                own.packages["pk"] = own.packages["pk"] + new
+            else:
+                own.packages = {"pk": own.packages["pk"] + new}
+            held = held + added
+            ctx.count("package_lists_grown_between_lookups")
+
+
 def run_case(spec, ctx):
     """replay"""
     from insights.parsers.rpm_vercmp import _rpm_vercmp as real
@@ -360,6 +401,8 @@ def run_case(spec, ctx):
         want = {"lt": exp < 0, "eq": exp == 0, "gt": exp > 0, "le": exp <= 0, "ge": exp >= 0, "ne": exp != 0}
         if ops != want:
             ctx.violation("rich-comparison-operators-disagree", {"a": A, "b": B, "operators": ops, "expected": want})
+    elif "list" in spec and spec.get("then"):
+        grown_list_check(ctx, spec["list"], spec["then"], spec.get("how", "append"))
     elif "list" in spec and spec["list"]:
         from insights.parsers.installed_rpms import RpmList
         evs = [tuple(x) for x in spec["list"]]
